@@ -127,6 +127,7 @@ class Channel:
         self.cid = cid
         self.q = [[], []]
         self.handles = [[], []]
+        self.reset = [False, False]       # end i: the other end was closed while data sent by i was still unread (ECONNRESET)
         self.partial = [False, False]     # a frame towards end i was cut by the writer's death
         self.inflight = [None, None]      # oversized frame towards end i waiting for a reader
         self.reader_waiting = [False, False]
@@ -161,7 +162,14 @@ class FakeConn:
 
     def _readable(self):
         c, i = self.chan, self.side
-        return bool(c.q[i]) or c.inflight[i] is not None or c.partial[i] or not self._peer_open()
+        return bool(c.q[i]) or c.inflight[i] is not None or c.partial[i] or c.reset[i] or not self._peer_open()
+
+    def _note_close(self):
+        """AF_UNIX stream sockets: if the last handle of this end goes away while data sent by the peer is still
+        unread, the peer's next read fails with ECONNRESET instead of seeing a clean EOF."""
+        c, i = self.chan, self.side
+        if not c.open_handles(i) and (c.q[i] or c.inflight[i] is not None):
+            c.reset[1 - i] = True
 
     def _check(self):
         S().check_alive()
@@ -216,6 +224,9 @@ class FakeConn:
         if c.partial[i]:
             c.partial[i] = False
             raise OSError("got end of file during message")
+        if c.reset[i]:
+            c.reset[i] = False
+            raise ConnectionResetError(104, "Connection reset by peer")
         raise EOFError()
 
     def poll(self, timeout=0.0):
@@ -227,6 +238,7 @@ class FakeConn:
     def close(self):
         S().check_alive()
         self.closed = True
+        self._note_close()
 
     def fileno(self):
         if self.closed:
@@ -386,6 +398,7 @@ def kill_plain_pid(s, pid):
 
 def _owner_died_conn(self):
     self.closed = True
+    self._note_close()
 
 
 FakeConn._owner_died = _owner_died_conn
@@ -623,7 +636,15 @@ class FakeSocket:
             ep.reset = True
             return
         if not p.shut_rd:
-            p.buf += bytes(data)
+            data = bytes(data)
+            if len(data) >= 8:
+                # a process can be killed when only part of the bytes have left (kill-only point: no Python code runs here)
+                half = len(data) // 2
+                p.buf += data[:half]
+                S().point("sock.send:mid", async_ok=False)
+                p.buf += data[half:]
+            else:
+                p.buf += data
 
     send = sendall
 
